@@ -151,8 +151,16 @@ def cases(spec, ctx):
             over["size"] = [8, 8]
             over.pop("clean", None)
             with_picture = True
-        yield {"base": base, "over": over, "pcm": rng.choice([0, 1]), "level": level,
-               "profile": rng.choice([0, 3]), "with_picture": with_picture}
+        case = {"base": base, "over": over, "pcm": rng.choice([0, 1]), "level": level,
+                "profile": rng.choice([0, 3]), "with_picture": with_picture}
+        yield case
+        if rng.random() < 0.2 and over:
+            # sibling format right after: the same case with one perturbed field dropped (back to the base's value)
+            sb = dict(case, over=dict(over))
+            drop = rng.choice(sorted(k for k in over if not (with_picture and k == "size")) or [None])
+            if drop is not None:
+                sb["over"].pop(drop)
+                yield sb
 
 
 def _pick(vs, candidates, rng):
